@@ -12,6 +12,7 @@ import io
 import logging
 import os
 import random
+import re
 import sys
 import tempfile
 import warnings
@@ -71,7 +72,7 @@ REACH = ['pywbem._recorder:LogOperationRecorder.stage_pywbem_args',
 
 def plan(tier):
     if tier == 'quick':
-        return dict(cases=5000, time_s=80, case_cpu_s=60)
+        return dict(cases=10000, time_s=120, case_cpu_s=60)
     return dict(cases=150000, time_s=540, case_cpu_s=120)
 
 
@@ -247,6 +248,25 @@ WARM_BODY = (b'<?xml version="1.0" encoding="utf-8" ?>\n<CIM CIMVERSION="2.0" '
              b'</IMETHODRESPONSE></SIMPLERSP></MESSAGE></CIM>')
 
 
+def unnamed_keys(body):
+    from lxml import etree
+    try:
+        root = etree.fromstring(body)
+    except etree.XMLSyntaxError:
+        return body
+    n = 0
+    for e in root.iter('INSTANCENAME'):
+        kbs = e.findall('KEYBINDING')
+        if len(kbs) == 1 and len(e) == 1 and len(kbs[0]) == 1:
+            child = kbs[0][0]
+            e.remove(kbs[0])
+            e.append(child)
+            n += 1
+    if not n:
+        return body
+    return b'<?xml version="1.0" encoding="utf-8" ?>\n' + etree.tostring(root)
+
+
 def warm_up(conn, warm):
     """A successful operation that precedes the judged one."""
     warm['on'] = True
@@ -293,6 +313,17 @@ def run_case(ctx, i, rng):
               'OpenEnumerateInstances', 'IterEnumerateInstances',
               'IterEnumerateInstancePaths') and rng.random() < 0.6:
         args = ('VF_Other',)      # the long non-ASCII instances
+    if op == 'InvokeMethod':
+        if len(args) >= 3 and isinstance(args[2], list) and args[2] and \
+                all(isinstance(p, tuple) for p in args[2]) and \
+                rng.random() < 0.4:
+            # Params is documented as an iterable of (name, value): a view of
+            # a dictionary (can be iterated in both runs of the case)
+            args = (args[0], args[1], dict(args[2]).items())
+        if rng.random() < 0.1:
+            # a CIM parameter whose name is also used inside pywbem
+            kw = dict(kw, **{rng.choice(['method', 'Method', 'conn_id',
+                                         'exc', 'ret']): 'vf'})
     if rng.random() < 0.3:
         # long non-ASCII text in the REQUEST, so that integer detail levels
         # of the http logger cut inside multi-byte characters there as well
@@ -317,7 +348,7 @@ def run_case(ctx, i, rng):
             kw = dict(kw, namespace='root/' + big[:40])
     rclass = rng.choice(['valid', 'valid', 'valid', 'cimerror-nonascii',
                          'mutated', 'garbage', 'invalid', 'http', 'fault',
-                         'valid-reencoded', 'recorded'])
+                         'valid-reencoded', 'recorded', 'valid-unnamed-key'])
     recs = st.get('recordings', {}).get(op)
     if rclass == 'recorded' and not recs:
         rclass = 'valid'
@@ -385,6 +416,10 @@ def run_case(ctx, i, rng):
         elif rclass == 'recorded':
             # a server answer recorded in the repository's function tests
             ans = transport.Scripted(body=rng.choice(recs)[2])
+        elif rclass == 'valid-unnamed-key':
+            # the other DTD form of an instance path with one key:
+            # INSTANCENAME (KEYVALUE | VALUE.REFERENCE) without KEYBINDING
+            ans = transport.Scripted(body=unnamed_keys(valid_answer(request)))
         elif rclass == 'valid-reencoded':
             ans = transport.Scripted(body=reencode(rng, valid_answer(request)))
         elif rclass == 'cimerror-nonascii':
@@ -521,6 +556,10 @@ def run_case(ctx, i, rng):
                 not (type(exc1) is type(exc0)):
             # an observer raised: the mechanism is where it raised
             key = 'outcome-changed.observer-raised:' + exc_key(exc1)
+            m_ = re.search(r"toyaml\(\): .*<class '([\w.]+)'>", str(exc1))
+            if isinstance(exc1, TypeError) and m_:
+                # which kind of object the recorder cannot record
+                key += '{%s}' % m_.group(1)
             if type(exc1).__name__ == 'RepresenterError' and \
                     len(exc1.args) > 1:
                 # the mechanism is the kind of object the YAML dumper was
@@ -536,9 +575,13 @@ def run_case(ctx, i, rng):
                       % (desc, cfg_name(cfg), short(repr(out0), 300),
                          short(repr(out1), 300)),
                       dict(detail, observed=short(repr(out1), 400)))
+    observer_raised_early = exc1 is not None and \
+        not isinstance(exc1, pywbem.Error) and type(exc1) is not type(exc0)
     tr0, tr1 = request_trace(ad0), request_trace(ad1)
     ctx.count('request-trace-compared')
-    if tr0 != tr1 and len(tr0) == len(tr1):
+    if observer_raised_early:
+        pass    # reported above; fewer requests are its consequence
+    elif tr0 != tr1 and len(tr0) == len(tr1):
         for a, b in zip(tr0, tr1):
             if a != b:
                 what = 'headers' if a[3] == b[3] else 'body'
@@ -555,7 +598,8 @@ def run_case(ctx, i, rng):
                     dict(detail, bare=short(repr(a[2]), 600),
                          observed=short(repr(b[2]), 600)))
                 break
-    if replay_state['extra'] or replay_state['n'] != len(recorded):
+    if not observer_raised_early and (
+            replay_state['extra'] or replay_state['n'] != len(recorded)):
         ctx.violation('request-count-changed.%s' % observer_of(cfg, None),
                       '%s: %d requests bare, %d with observers %s'
                       % (desc, len(recorded), replay_state['n'],
